@@ -16,15 +16,54 @@ META = {
                   "erroring path (>=100 requests) are not exercised at these constants.",
     "design_ref": "5.2 C10",
 }
+META["level_text"] += (" The clause about continuous-paging sessions is additionally decided from the session's side: the "
+                       "model spec/ContinuousPaging.tla (node, loop thread, consuming application thread, cancel, socket "
+                       "error / close) is checked by TLC and every edge of its state graphs is replayed on the real "
+                       "ContinuousPagingSession (both tiers; the same machinery as ./check XCPAGE, restricted to what "
+                       "concerns a failing or closing connection).")
 META["level_text"] += _driver.SYSTEM_LEVEL_TEXT
+
+
+class _SessionSide:
+    """ctx as seen by the continuous-paging model (spec/ContinuousPaging.tla, ./check XCPAGE) when it runs for C10:
+    the property's clause about paging sessions ("failed exactly once, nothing delivered afterwards") is decided
+    there from the session's side.  Findings of that model that are not about a failing / closing connection (the
+    recorded XCPAGE finding about ConnectionBusy) are not C10's business and are left to ./check XCPAGE."""
+
+    NOT_C10 = ("Busy:",)
+
+    def __init__(self, ctx):
+        self.__dict__["_ctx"] = ctx
+
+    def __getattr__(self, name):
+        return getattr(self._ctx, name)
+
+    def __setattr__(self, name, value):
+        setattr(self._ctx, name, value)
+
+    def violation(self, what, replay=None, signature=None):
+        if signature and signature.startswith(self.NOT_C10):
+            self._ctx.note("session_side_findings_left_to_XCPAGE", signature)
+            return
+        if isinstance(replay, dict):
+            replay = dict(replay, cpaging=True)
+        return self._ctx.violation(what, replay=replay, signature=signature)
+
+    def note(self, key, value):
+        return self._ctx.note("cp_" + key, value)
 
 
 def run(ctx):
     _conn.run(ctx, "C10")
+    from checks import _cpaging
+    _cpaging.run_cpaging(_SessionSide(ctx))     # the paging sessions' side of a failing / closing connection
     _driver.system_tier(ctx, "C10")     # thorough: whole-driver runs against spec/Driver.tla, rejections owned by C10
 
 
 def replay(ctx, obj):
+    if isinstance(obj, dict) and obj.get("cpaging"):
+        from checks import _cpaging
+        return _cpaging.replay_cpaging(ctx, obj)
     if _driver.is_system_replay(obj):
         return _driver.replay_system(ctx, obj)
     _conn.replay(ctx, "C10", obj)
